@@ -2,10 +2,11 @@
 //
 // Bounded-exhaustive enumeration of every path over a 7-segment alphabet
 // (0..N segments, absolute/relative, with/without trailing separator) against
-//   A. os.ResolvePath (pure containment, component-wise),
-//   B. localfs.Filesystem: every FS operation on a real temp tree with sentinels outside the base,
-//   C. VirtualOS mount selection, observed through recording filesystems, every FS operation,
-//      both arguments of two-path operations, against an independent component-wise oracle.
+//
+//	A. os.ResolvePath (pure containment, component-wise),
+//	B. localfs.Filesystem: every FS operation on a real temp tree with sentinels outside the base,
+//	C. VirtualOS mount selection, observed through recording filesystems, every FS operation,
+//	   both arguments of two-path operations, against an independent component-wise oracle.
 package c13
 
 import (
@@ -89,7 +90,9 @@ func Check(r *ev.Run, replay string) {
 		nD = 4
 	}
 	partD(r, nD)
-	r.Set("rule", fmt.Sprintf("every path string with 0..N segments over the 7-segment alphabet x leading/trailing separator; A: ResolvePath x 4 bases (N=%d); B: localfs x 14 operations x 3 bases on a real tree (N=%d; two-path ops: every path in each position against fixed partners + all pairs over short paths); C: VirtualOS x 7 mount tables x 4 cwds x 14 operations with recording filesystems (N=%d); D: every history of <= %d steps over {Stat, Remove, Rename on 4 relative and 1 absolute path, Chdir to 5 directories} on one VirtualOS per mount table, each step judged against the working directory of that moment. distinct = distinct (part, operation, outcome class, resolved location) tuples", nA, nB, nC, nD))
+	nE := 3
+	partE(r, nE)
+	r.Set("rule", fmt.Sprintf("every path string with 0..N segments over the 7-segment alphabet x leading/trailing separator; A: ResolvePath x 4 bases (N=%d); B: localfs x 14 operations x 3 bases on a real tree (N=%d; two-path ops: every path in each position against fixed partners + all pairs over short paths); C: VirtualOS x 7 mount tables x 4 cwds x 14 operations with recording filesystems (N=%d); D: every history of <= %d steps over {Stat, Remove, Rename on 4 relative and 1 absolute path, Chdir to 5 directories} on one VirtualOS per mount table, each step judged against the working directory of that moment; E: every history of <= 3 steps over 34 (thorough 48) operations on one based localfs on a real tree (symlinks created at three depths, renames that move links and directories to other depths, reads/writes/removals/listings through the links): nothing outside the base is read or changed. distinct = distinct (part, operation, outcome class, resolved location) tuples", nA, nB, nC, nD))
 }
 
 // ---------------------------------------------------------------- part A
@@ -397,15 +400,15 @@ func (f recFS) rec(op, p string) error {
 	return fmt.Errorf("recorded")
 }
 func (f recFS) Create(n string) (ros.File, error)         { return nil, f.rec("Create", n) }
-func (f recFS) Mkdir(n string, _ ros.FileMode) error       { return f.rec("Mkdir", n) }
-func (f recFS) MkdirAll(n string, _ ros.FileMode) error    { return f.rec("MkdirAll", n) }
-func (f recFS) Open(n string) (ros.File, error)            { return nil, f.rec("Open", n) }
-func (f recFS) ReadFile(n string) ([]byte, error)          { return nil, f.rec("ReadFile", n) }
-func (f recFS) Remove(n string) error                      { return f.rec("Remove", n) }
-func (f recFS) RemoveAll(n string) error                   { return f.rec("RemoveAll", n) }
-func (f recFS) Stat(n string) (ros.FileInfo, error)        { return nil, f.rec("Stat", n) }
-func (f recFS) ReadDir(n string) ([]ros.DirEntry, error)   { return nil, f.rec("ReadDir", n) }
-func (f recFS) WalkDir(n string, _ ros.WalkDirFunc) error  { return f.rec("WalkDir", n) }
+func (f recFS) Mkdir(n string, _ ros.FileMode) error      { return f.rec("Mkdir", n) }
+func (f recFS) MkdirAll(n string, _ ros.FileMode) error   { return f.rec("MkdirAll", n) }
+func (f recFS) Open(n string) (ros.File, error)           { return nil, f.rec("Open", n) }
+func (f recFS) ReadFile(n string) ([]byte, error)         { return nil, f.rec("ReadFile", n) }
+func (f recFS) Remove(n string) error                     { return f.rec("Remove", n) }
+func (f recFS) RemoveAll(n string) error                  { return f.rec("RemoveAll", n) }
+func (f recFS) Stat(n string) (ros.FileInfo, error)       { return nil, f.rec("Stat", n) }
+func (f recFS) ReadDir(n string) ([]ros.DirEntry, error)  { return nil, f.rec("ReadDir", n) }
+func (f recFS) WalkDir(n string, _ ros.WalkDirFunc) error { return f.rec("WalkDir", n) }
 func (f recFS) WriteFile(n string, _ []byte, _ ros.FileMode) error {
 	return f.rec("WriteFile", n)
 }
@@ -601,6 +604,25 @@ func replayOne(r *ev.Run, path string) {
 		r.Eval(1)
 		if len(log) > 0 && !strings.HasPrefix(log[0], wm+"|") {
 			r.Report("virtualos-wrong-mount", "wrong mount on replay", in, log[0], wm)
+		}
+	case "E":
+		var c caseE
+		if err := ev.ReadReplay(path, &c); err != nil {
+			r.EngineError("replay: " + err.Error())
+			return
+		}
+		scratch, _ := os.MkdirTemp("", "verif-c13e-")
+		defer os.RemoveAll(scratch)
+		t := tree{root: filepath.Join(scratch, "T")}
+		t.buildOutside()
+		t.buildInside()
+		basedir := filepath.Join(t.root, "base")
+		fsys, _ := localfs.New(context.Background(), localfs.WithBase(basedir))
+		sig, what := runE(t, fsys, snapshot(t.root, basedir), c.Steps, true)
+		fmt.Printf("oracle: %s %s\n", sig, what)
+		r.Eval(1)
+		if sig != "" {
+			r.Report(sig, what, c, what, "")
 		}
 	case "D":
 		var c caseD
